@@ -142,6 +142,8 @@ def multi_label_continue(prog):
 
 
 def classify(symptom, prog, completion, origin):
+    if re.search(r'var c = "[^"]*\beval\(c\)', prog) and symptom in ("swallowed", "overrun", "wrong-completion"):
+        return "direct-eval-not-depth-limited"
     if multi_label_continue(prog) and symptom in ("overrun", "swallowed", "finally-ran", "cfg-cycle", "form-mismatch", "hang", "wrong-completion"):
         return "multi-label-continue-skips-counter"
     if symptom == "panic" and "is_throw_completion" in completion:
@@ -392,6 +394,13 @@ DEPTH_ROUTES = {
     "cb-sort": "hk",
     "cb-replace-string": "hk",
     "iterator-for-of": "hk",
+    "cb-Reflect.get-getter": "hk",
+    "bound-chain": "k",
+    "Function.prototype.call.call": "h",
+    "call-apply-chain": "h",
+    # direct eval of a string calling T: CallEval pushes the eval frame itself (no check of its own, no host_call_depth);
+    # modelled as a plain frame push - its check has the same (frames, host) as the print in front of it
+    "eval-direct": "kk",
 }
 
 
@@ -403,7 +412,7 @@ def depth_stage(run, jsbin, modelbin, findings):
         for R in Rs:
             jobs.append(("rec=%d stack=100000" % R, ROUTES.wrap_rec(tpl[name])))
             meta.append((name, shape, R))
-            t_code = {"k": "1;;o0:1,k1.0,r", "h": "1;;o0:1,h1.0.p,r", "hk": "1;;o0:1,h2.0.p,r"}[shape]
+            t_code = {"k": "1;;o0:1,k1.0,r", "h": "1;;o0:1,h1.0.p,r", "hk": "1;;o0:1,h2.0.p,r", "kk": "1;;o0:1,k2.0,r"}[shape]
             codes = "1;;k1.0,r/%s/1;;k1.0,r" % t_code
             mlines.append("V d%d 100000 %d 50000 0 1 %s %s" % (len(meta) - 1, R, codes, ",".join(["1"] * (6 * R + 12))))
     res = js_many(jsbin, jobs, chunk=10)
@@ -434,6 +443,58 @@ def depth_stage(run, jsbin, modelbin, findings):
                              "input": jobs[k][1], "cfg": jobs[k][0], "model_output": [mcomp, mb], "impl_output": [r[0], icomp, ib]})
     run.cov["depth_cases"] = len(meta)
     run.cov["depth_agree"] = agree
+
+
+# ----------------------------------------------------------------------------------------------
+# chains that reach depth without an ordinary function call on the way down
+
+def chain_stage(run, jsbin, modelbin, findings):
+    """(a) k delegating generators resumed by one next(): every level is `next` (native: check_runtime_limits) followed by
+    GeneratorContext::resume (frame push, no check of its own, no host_call_depth) = the model's ICall; the model predicts for
+    every R whether the leaf is reached.  (b) pure direct-eval recursion: the property asks for Recursion once the depth
+    passes R."""
+    jobs, meta, mlines = [], [], []
+    Ks = [3] if run.quick else [2, 3, 6, 12]
+    for K in Ks:
+        for form in ("yield*", "for-of"):
+            for R in range(max(K - 1, 1), K + 6):
+                jobs.append(("rec=%d stack=100000" % R, ROUTES.generator_chain(K, form)))
+                meta.append(("gen", K, form, R))
+                # the leaf's print is a native call with its own check: modelled as a re-entry into an empty function
+                codes = "/".join(["1;;k1.0,r"] + ["1;;k%d.0,r" % (i + 2) for i in range(K)] + ["1;;h%d.0.p,r" % (K + 2), "0;;r"])
+                mlines.append("V g%d 100000 %d 100000 0 1 %s %s" % (len(meta) - 1, R, codes, ",".join(["1"] * (4 * K + 12))))
+    for R in ([8] if run.quick else [4, 8, 32]):
+        jobs.append(("rec=%d stack=100000" % R, ROUTES.direct_eval_chain(3 * R)))
+        meta.append(("eval", 3 * R, "direct", R))
+    res = js_many(jsbin, jobs, chunk=10)
+    mout = model_lines(modelbin, mlines) if mlines else {}
+    agree = 0
+    for k, ((cfg, prog), (kind, K, form, R), r) in enumerate(zip(jobs, meta, res)):
+        if r is None or r[0] != "ok":
+            run.cov["discarded"] = run.cov.get("discarded", 0) + 1
+            continue
+        run.count(("chain", kind, K, form, R))
+        if kind == "gen":
+            mo = mout.get("g%d" % k)
+            if mo is None:
+                continue
+            mleaf = any(t == "x%d.%d.0" % (K + 3, K + 2) for t in mo[1:])
+            mcomp = "L:Recursion" if mo[0] == "L:Recursion" else "R"
+            ileaf = "leaf" in r[1]
+            icomp = "L:Recursion" if r[2].startswith("L:Recursion") else ("R" if r[2].startswith("V:") else r[2])
+            if (mcomp, mleaf) == (icomp, ileaf):
+                agree += 1
+            else:
+                findings.append({"kind": "correspondence-broken", "class": "recursion-depth-accounting:generator-chain-" + form,
+                                 "obligation": "generator resumption = native check (next) + frame push without host_call_depth, i.e. the model's ICall", "input": prog,
+                                 "cfg": cfg, "model_output": [mcomp, mleaf], "impl_output": [r[0], icomp, ileaf]})
+        else:
+            if not r[2].startswith("L:Recursion"):
+                findings.append({"kind": "counterexample", "class": "direct-eval-not-depth-limited", "symptom": "overrun", "input": prog, "cfg": cfg,
+                                 "impl_output": {"status": r[0], "trace": r[1][-2:], "completion": r[2]},
+                                 "expected": "RuntimeLimitError (Recursion): %d nested eval frames under recursion limit %d (the indirect form (0,eval)(c) is stopped)" % (K + 1, R)})
+    run.cov["chain_cases"] = len(meta)
+    run.cov["generator_chain_agree"] = agree
 
 
 # ----------------------------------------------------------------------------------------------
@@ -887,6 +948,7 @@ def main():
         forms_stage(run, jsbin, modelbin, findings)
         depth_stage(run, jsbin, modelbin, findings)
         stack_stage(run, jsbin, modelbin, findings)
+        chain_stage(run, jsbin, modelbin, findings)
     tjobs = [("loop=100000 jobs=1", t) for t in grid_programs[:(8 if run.quick else 40)]]
     tjobs += [("loop=%d jobs=1" % run.rng.choice([2, 7]), t) for t in grid_programs[:(4 if run.quick else 20)]]
     tjobs += [("rec=%d" % run.rng.choice([7, 16]), ROUTES.wrap_rec(tpl)) for (_, tpl, tag) in ROUTES.ROUTES[run.rng.randrange(5)::(9 if run.quick else 2)] if tag == "sync"]
